@@ -187,6 +187,13 @@ func init() {
 			}
 			return int64(len(ch.buf))
 		},
+		"And": func(fr *frame, a []value) value { return fr.i.run.andv(a[0], a[1]) },
+		"Or": func(fr *frame, a []value) value {
+			r := fr.i.run
+			return r.notv(r.andv(r.notv(a[0]), r.notv(a[1])))
+		},
+		"Ite": func(fr *frame, a []value) value { return fr.i.run.itev(a[0], a[1], a[2]) },
+		"IteF": func(fr *frame, a []value) value { return fr.i.run.itev(a[0], a[1], a[2]) },
 		"IsSymbolic": func(fr *frame, a []value) value { return fr.i.run.concrete == nil },
 	}
 }
